@@ -388,4 +388,45 @@ def VbriStream.expected (s : VbriStream) : Mp3.Info :=
     bitrateMode := 2, encoderInfo := Mp3.asciiB "FhG",
     bitrate := if h.samples * s.tag.frames ≠ 0 then .trunc (.div (.nat (s.tag.bytes * 8)) len) else .int h.bitrate }
 
+/-! ### fewer than four frames -/
+
+/-- a stream that stops after one to three frames: behind the last frame no further header, and nowhere a pair of bytes
+that looks like a sync except where the frames begin (so that no later sync starts a chain of frames either) -/
+structure Short where
+  lead : Lead
+  frames : List Frame
+  trailing : Bytes
+deriving DecidableEq, Repr
+
+/-- each frame plain (no VBR header), without a false sync from its second byte up to and including the first byte
+behind it; no false sync in what follows the last frame -/
+def quietFrames : List Frame → Bytes → Prop
+  | [], t => noSync t = true
+  | fr :: rest, t =>
+    plainFrame fr (renderFrames rest ++ t) ∧ noSync (fr.render.drop 1 ++ (renderFrames rest ++ t).take 1) = true ∧ quietFrames rest t
+
+instance (fr : Frame) (after : Bytes) : Decidable (plainFrame fr after) := by unfold plainFrame; infer_instance
+
+instance decQuietFrames : (fs : List Frame) → (t : Bytes) → Decidable (quietFrames fs t)
+  | [], t => by unfold quietFrames; infer_instance
+  | fr :: rest, t => by
+    unfold quietFrames
+    have := decQuietFrames rest t
+    infer_instance
+
+def Short.build (s : Short) : Bytes := s.lead.render ++ (renderFrames s.frames ++ s.trailing)
+
+def Short.OK (s : Short) : Prop := s.lead.OK ∧ 1 ≤ s.frames.length ∧ s.frames.length ≤ 3 ∧ quietFrames s.frames s.trailing
+
+instance (s : Short) : Decidable s.OK := by unfold Short.OK; infer_instance
+
+/-- with two or three frames the first frame's header is what there is to report, marked `sketchy`; the duration is the
+estimate from the size.  One frame alone is not taken for an MPEG stream (`none`: HeaderNotFoundError). -/
+def Short.expected (s : Short) : Option Mp3.Info :=
+  match s.frames with
+  | f1 :: _ :: _ =>
+    some { headerInfo f1.hdr s.lead.render.length
+             (.div (.int (8 * ((s.build.length : Int) - (s.lead.render.length : Nat)))) (.flt (.int f1.hdr.bitrate))) with sketchy := true }
+  | _ => none
+
 end Mutagen.Spec.Mp3
